@@ -714,7 +714,9 @@ LEVEL_TEXT = ("Proof (Lean 4, for every element type and every scalar semantics)
               "seven operators direct and reflected - reflected '*' under the stated hypothesis that Python's scalar '*' commutes "
               "because __rmul__ delegates to __mul__ -, pointwise_any_vector including _Date.__add__ days); length_mismatch_errors "
               "(+_vector, result_implies_equal_length: the zip is strict, nothing is truncated/recycled/broadcast); "
-              "defined_when_python_defines (no spurious refusal); table_is_columnwise, table_table_is_columnwise, "
+              "defined_when_python_defines (no spurious refusal); table_is_columnwise, table_reflected_is_columnwise, "
+              "table_unary_is_columnwise (scalar on the left and -t/+t/abs(t): same shape, column by column — the code had these wrong "
+              "until 4c3b80c/7b34bbf), table_table_is_columnwise, "
               "table_width_mismatch_errors, table_cellwise; broadcast_pointwise, broadcast_eq_map, broadcast_all_none; and the "
               "executable judge used by the driver is tied to the model (model_conforms, vector_model_conforms, table_model_conforms, "
               "table_table_model_conforms, judge_exact, judge_mismatch, broadcast_conforms). Sampled only: that the model is the code (differential run: exhaustive small "
